@@ -620,6 +620,19 @@ Proof.
     intros r u. apply monotone_add_status; [reflexivity | exact Hn].
 Qed.
 
+(* the tolerated-failure rule of the current source (fix b8b0a0d9a: prefix "cawg.") covers every failure code of the
+   identity layer: the positive branch is the one in force *)
+Theorem manifest_not_invalidated l r :
+  valid_cond r ->
+  (forall s, In s l -> suri s = None
+             /\ (skind s = KFailure -> In (scode s) identity_failure_codes \/ starts_with x509_prefix (scode s) = true)) ->
+  validation_state (add_all r l) <> Invalid.
+Proof.
+  pose proof manifest_not_invalidated_or_refuted as K.
+  assert (E : forallb is_tolerated identity_failure_codes = true) by (vm_compute; reflexivity).
+  rewrite E in K. apply K.
+Qed.
+
 (* ------------------------------------------------------------------ corollaries used by Properties/C33.v *)
 
 Section Corollaries.
